@@ -396,7 +396,7 @@ fn buf_owned_ctors() {
 
 // @ob props=C11 tier=quick kind=P cfg=core-std timeout=600
 // @fn <Rect as From<(H,V)>>::from ; <Rect as From<Range<Vec2u>>>::from ; <Rect as From<RangeFull>>::from
-// @clause every range form converts to the half-open rectangle it denotes (a..b, a..=b, a.., ..b, ..=b, .., ranges of vectors), for all u32 bounds that do not overflow
+// @clause every range form converts to the half-open rectangle it denotes (a..b, a..=b, a.., ..b, ..=b, .., ranges of vectors, and every pair of explicit Bound values: included/excluded/unbounded starts and ends), for all u32 bounds that do not overflow
 #[cfg(not(verif_skip_buf_rect_from_range_forms))]
 #[kani::proof]
 fn buf_rect_from_range_forms() {
@@ -415,6 +415,16 @@ fn buf_rect_from_range_forms() {
     assert!(r == Rect { left: Some(a), top: Some(c), right: Some(b), bottom: Some(d) });
     let r: Rect = (..).into();
     assert!(r == Rect { left: None, top: None, right: None, bottom: None });
+    // every combination of explicit bounds (RangeBounds is also implemented by pairs of Bound, with exclusive starts and inclusive ends)
+    use core::ops::Bound::{self, Excluded, Included, Unbounded};
+    let pick = |k: u8, v: u32| -> Bound<u32> { match k % 3 { 0 => Included(v), 1 => Excluded(v), _ => Unbounded } };
+    let (k0, k1, k2, k3): (u8, u8, u8, u8) = (kani::any(), kani::any(), kani::any(), kani::any());
+    kani::assume(a < u32::MAX && c < u32::MAX);
+    let r: Rect = ((pick(k0, a), pick(k1, b)), (pick(k2, c), pick(k3, d))).into();
+    kani::cover!(k0 % 3 == 1 && k3 % 3 == 0);
+    let lo = |k: u8, v: u32| match k % 3 { 0 => Some(v), 1 => Some(v + 1), _ => None };
+    let hi = |k: u8, v: u32| match k % 3 { 0 => Some(v + 1), 1 => Some(v), _ => None };
+    assert!(r == Rect { left: lo(k0, a), top: lo(k2, c), right: hi(k1, b), bottom: hi(k3, d) });
 }
 
 // ---- small-domain twins of the Verus contracts: they find a concrete failing input when a Verus obligation fails ----
